@@ -11,6 +11,7 @@ pub mod c06;
 pub mod c12;
 pub mod c16;
 pub mod c17;
+pub mod c18;
 
 /// A bounded space of cases with its oracle.
 pub trait Space: Sync {
@@ -90,6 +91,7 @@ pub fn run_check(id: &str, tier: &str) -> i32 {
         "C13" => c12::run_c13(tier),
         "C16" => c16::run(tier),
         "C17" => c17::run(tier),
+        "C18" => c18::run(tier),
         _ => {
             eprintln!("MACHINERY-ERROR: unknown property {}", id);
             2
@@ -116,6 +118,7 @@ pub fn run_replay(path: &str) -> i32 {
         "C13" => c12::replay_c13(&f),
         "C16" => c16::replay(&f),
         "C17" => c17::replay(&f),
+        "C18" => c18::replay(&f),
         _ => {
             eprintln!("MACHINERY-ERROR: unknown property {}", prop);
             2
